@@ -177,6 +177,18 @@ def run(ctx):
                 arg = c.args[0] if c.args else None
                 # the predicate is applied to the value itself, not to the members of container values
                 recursive = not (isinstance(arg, ast.Name) and isinstance(scans[0].target, ast.Tuple) and arg.id == scans[0].target.elts[1].id)
+    # producer and consumer agree on *which* objects take part: the scan that lists children uses the same metaclass test as the table that routes
+    # objects to the reducer (issubclass(<class>, SupportRemoteGetState), which goes through __subclasscheck__ - isinstance() does not)
+    sub = RP.methods.get('subject_to_custom_reduce')
+    DTs = [c for c in P.classes.values() if c.name == 'dyn_dispatch_table' or ('__getitem__' in c.methods and any(
+        is_name(x.func, 'issubclass') and norm(x.args[1]).endswith('SupportRemoteGetState') for x in calls_in(c.methods['__getitem__'].node)))]
+    prod = [x for x in calls_in(sub.node) if is_name(x.func, 'issubclass') and len(x.args) == 2 and norm(x.args[1]).endswith('SupportRemoteGetState')
+            and isinstance(x.args[0], ast.Call) and is_name(x.args[0].func, 'type') and x.args[0].args and is_name(x.args[0].args[0], sub.params[-1])] if sub is not None else []
+    ctx.check('R3', 'the scan that lists the opt-in children of an object applies the test that routes objects to the remote reducer (issubclass of the class, through the metaclass)',
+              bool(prod) and bool(DTs), 'RemotePickler36.subject_to_custom_reduce', 'producer-predicate-differs',
+              'children are listed by a different test than the one that sends objects through the remote reducer (e.g. isinstance(), which does not consult the metaclass): an object that is '
+              'remote-aware by signature only is restored through the patching protocol but gets no frame of its own - it consumes its parent\'s frame and is patched with the parent\'s patches',
+              where=loc(sub, sub.node) if sub is not None else None)
     ok = not (consumer_everywhere and not own_test and not recursive)
     ctx.sample({'rule': 'C15.R3', 'consumer_installed_for_every_routed_object': consumer_everywhere, 'consumer_tests_own_frame': own_test, 'producer_scans_containers': recursive})
     ctx.check('R3', 'frames are produced for every object that consumes one (or the consumer recognises its own frame)', ok, 'RemoteState.child_restored',
